@@ -22,7 +22,7 @@ class C20(vlib.Spec):
     model_vo = ["theories/Partition/Rewrite.vo"]
     props_vo = "theories/Props/C20.vo"
     theorems = ["C20_remove_intermediate_contracts_partial", "C20_remove_intermediate_spec_partial",
-                "C20_eliminate_preserves_wiring"]
+                "C20_eliminate_preserves_wiring", "C20_remove_module_boundary_preserves_wiring"]
     crate, group, binary = "h_partition", "dfir", "h_partition"
     imports = ("From Coq Require Import List String NArith.\n"
                "From HV Require Import Partition.Base Partition.Model Partition.Rewrite.\n"
@@ -82,6 +82,8 @@ class C20(vlib.Spec):
         mbs = [n["id"] for n in res["with_mb"]["nodes"] if n["k"] == "mb"]
         if res["merge"] == "ok":
             pieces.append("c20_rewrite %s %s %s" % (G(res["with_mb"]), vlib.g_list("%d" % x for x in mbs), G(res["after_mm"])))
+            # the sequential model of merge_modules (one remove_module_boundary per boundary, node order)
+            pieces.append("c20_mb_model %s %s %s" % (G(res["with_mb"]), vlib.g_list("%d" % x for x in mbs), G(res["after_mm"])))
         else:
             py_bits |= 2  # the harness only builds port-consistent boundaries
         # explicit remove_intermediate_node calls
